@@ -11,6 +11,7 @@ import Driver.Eq
 import Driver.Serialize
 import Driver.Flags
 import Driver.Threads
+import Driver.Diff
 open Lean Driver
 
 def dispatch (req : Json) : R Json := do
@@ -23,6 +24,7 @@ def dispatch (req : Json) : R Json := do
   | "serialize" => Driver.Serialize.handle req
   | "flags" => Driver.Flags.handle req
   | "threads" => Driver.Threads.handle req
+  | "diff" => Driver.Diff.handle req
   | "guard" => Driver.Errors.handleGuard req
   | "decorate" => Driver.Errors.handleDecorate req
   | _ => throw "bad-op"
